@@ -119,3 +119,17 @@ Proof.
     try (unfold go_len; lia).
   change (Z.of_nat 0) with 0%Z in Hl. cbn [drop app] in Hl. rewrite Hl. reflexivity.
 Qed.
+
+(* ------------------------------------------------------------------ *)
+(* directiveChangeNewlineToBr: escape first, then the newline regexp replaced by <br>, the result a data.String.
+   template.HTMLEscapeString and newlinePattern.ReplaceAllString are parameters; the instances are Model/Escape.v's
+   tmpl_html_escape and Model/Directives.v's nl2br (the matcher for the pattern below with the template "<br>"). *)
+Lemma newline_pattern_is_the_modelled_one :
+  src_soyhtml_newlinePattern_pattern = [92; 114; 92; 110; 124; 92; 114; 124; 92; 110].   (* \r\n|\r|\n *)
+Proof. reflexivity. Qed.
+
+Theorem change_newline_to_br_matches_source (v : value) (st_string : value -> option bstr) (s : bstr) (args : list value) :
+  st_string v = Some s ->
+  src_soyhtml_directiveChangeNewlineToBr value VStr st_string tmpl_html_escape (st_re nl2br br) v args =
+  Some (VStr (change_newline_to_br s)).
+Proof. intros Hv. unfold src_soyhtml_directiveChangeNewlineToBr. rewrite Hv. reflexivity. Qed.
